@@ -162,6 +162,22 @@ Proof.
       destruct (bind (phase_delete (post b18) m cfg ev w) (fun w2 => phase_append m ev w2) (fun x => x)); reflexivity.
 Qed.
 
+(* the whole thread body: `for event in receiver { <translated body> }` is the model's run_events, so every theorem of
+   Properties/C19.v about run_events / run_one / run_history is a theorem about the loop as it is written in the
+   source today *)
+Fixpoint run_events_src (v : variant) (m : mode) (cfg : config) (w : wstate) (evs : list line) : res wstate :=
+  match evs with
+  | [] => ROk w
+  | ev :: t => bind (eval_iteration v m cfg ev src_writer_loop w) (fun w' => run_events_src v m cfg w' t) (fun x => x)
+  end.
+Theorem writer_thread_tie : forall b18 m cfg evs w,
+  run_events_src (post b18) m cfg w evs = run_events (post b18) m cfg w evs.
+Proof.
+  intros b18 m cfg evs. induction evs as [|ev t IH]; intros w; [reflexivity|].
+  cbn [run_events_src run_events]. rewrite writer_loop_tie.
+  destruct (step (post b18) m cfg w ev) as [w'|w'|]; cbn [bind]; [apply IH|reflexivity|reflexivity].
+Qed.
+
 (* ---------------------------------------------------------------- LogFile::create: the name *)
 (* format!(".{:04}{:02}{:02}T{:02}{:02}{:02}Z-{n}", dt.year, dt.month, dt.day, dt.hour, dt.min, dt.sec):
    positional arguments named f1..f6 by the translator *)
